@@ -44,7 +44,8 @@ func (p *prop) Rule() string {
 		"difference, xor, offset range, decode from a mapping, fragment row, row set-operations, merge), values spread over the " +
 		"NON-adjacent containers 0,1,3,7 so that later writes insert container keys in the middle of a key table, fragment " +
 		"importRoaring (set/clear) with array/run/bitmap payload containers (up to 15000 bits) against array/run/bitmap stored " +
-		"containers after rows have been handed out; then mutate / snapshot / remap / " +
+		"containers after rows have been handed out; containers of 3-6 runs turned into run containers by Optimize / snapshot, " +
+		"derived, then edited on either side at run boundaries (last+1, start-1, last, start, middle, gap); then mutate / snapshot / remap / " +
 		"unmap / close / reopen either side, every handle re-read after every step; a case is non-trivial when it derives a value and " +
 		"later mutates, remaps or closes one of the two sides"
 }
@@ -222,6 +223,143 @@ func genRowCase(r *vh.Rng) vh.Case {
 	return vh.Case{Lines: lines, Nontrivial: derived && later}
 }
 
+// runSet returns 3-6 runs inside container key (ascending, separated by gaps) as range items, and
+// the run boundaries as (start, last) pairs.
+func runSet(r *vh.Rng, key int) (string, [][2]int) {
+	base := key * 65536
+	n := r.Range(3, 6)
+	pos := base + r.Pick(0, 1, 10)
+	var items []string
+	var runs [][2]int
+	for i := 0; i < n; i++ {
+		l := r.Pick(1, 2, 5, 9)
+		items = append(items, fmt.Sprintf("%d-%d", pos, pos+l))
+		runs = append(runs, [2]int{pos, pos + l})
+		pos += l + r.Pick(2, 3, 10, 100)
+	}
+	return strings.Join(items, ","), runs
+}
+
+// edge returns a value at a run boundary: last+1 (extend), start-1, last (shrink), start, a middle
+// value (split), or the gap value that merges two runs.
+func edge(r *vh.Rng, runs [][2]int) int {
+	ru := runs[r.Intn(len(runs))]
+	switch r.Intn(6) {
+	case 0:
+		return ru[1] + 1
+	case 1:
+		if ru[0] > 0 {
+			return ru[0] - 1
+		}
+		return ru[0]
+	case 2:
+		return ru[1]
+	case 3:
+		return ru[0]
+	case 4:
+		return (ru[0] + ru[1]) / 2
+	default:
+		return ru[1] + 2
+	}
+}
+
+// genRunCase: containers holding 3-6 runs (run containers after Optimize / decode), derived by
+// clone / freeze / union / offset range / decode, then either side edited at run boundaries (runs are
+// edited in place when the container is writable), everything re-read.
+func genRunCase(r *vh.Rng) vh.Case {
+	var lines []string
+	var allRuns [][2]int
+	var items []string
+	for _, k := range []int{0, r.Pick(1, 3)}[:r.Pick(1, 2)] {
+		it, runs := runSet(r, k)
+		items = append(items, it)
+		allRuns = append(allRuns, runs...)
+	}
+	lines = append(lines, "bnew "+strings.Join(items, ","))
+	lines = append(lines, "boptimize 0")
+	n := 1
+	derived, later := false, false
+	for i := r.Range(5, 12); i > 0; i-- {
+		h := r.Intn(n)
+		switch x := r.Intn(100); {
+		case x < 12:
+			lines = append(lines, fmt.Sprintf("bclone %d", h))
+			n++
+			derived = true
+		case x < 24:
+			lines = append(lines, fmt.Sprintf("bfreeze %d", h))
+			n++
+			derived = true
+		case x < 30:
+			lines = append(lines, fmt.Sprintf("boffset %d 0 0 4", h))
+			n++
+			derived = true
+		case x < 36:
+			lines = append(lines, fmt.Sprintf("b%s %d %d", binNames[r.Intn(4)], h, r.Intn(n)))
+			n++
+			derived = true
+		case x < 41:
+			lines = append(lines, fmt.Sprintf("bmap %d", h))
+			n++
+			derived = true
+		case x < 48:
+			lines = append(lines, fmt.Sprintf("boptimize %d", h))
+		case x < 78:
+			lines = append(lines, fmt.Sprintf("badd %d %d", h, edge(r, allRuns)))
+			later = later || derived
+		default:
+			lines = append(lines, fmt.Sprintf("bremove %d %d", h, edge(r, allRuns)))
+			later = later || derived
+		}
+	}
+	return vh.Case{Lines: lines, Nontrivial: derived && later}
+}
+
+// genRunRowCase: the same on a fragment: rows of 3-6 runs are imported and snapshotted (stored as run
+// containers, mapped), read, and then the fragment and the rows are edited at run boundaries.
+func genRunRowCase(r *vh.Rng) vh.Case {
+	shard := r.Pick(0, 0, 1)
+	lines := []string{fmt.Sprintf("fopen %d", shard)}
+	row := r.Pick(0, 1)
+	it, runs := runSet(r, row*16+r.Pick(0, 1))
+	lines = append(lines, "fimport 0 "+it)
+	if r.Chance(3, 4) {
+		lines = append(lines, "fsnap")
+	}
+	rows := 0
+	derived, later := false, false
+	colOf := func(p int) int { return shard*sw + p%sw }
+	for i := r.Range(5, 11); i > 0; i-- {
+		switch x := r.Intn(100); {
+		case x < 25:
+			lines = append(lines, fmt.Sprintf("frow %d", row))
+			rows++
+			derived = true
+		case x < 50 && rows > 0:
+			lines = append(lines, fmt.Sprintf("rset %d %d", r.Intn(rows), colOf(edge(r, runs))))
+			later = later || derived
+		case x < 65:
+			lines = append(lines, fmt.Sprintf("fset %d %d", row, edge(r, runs)%sw))
+			later = later || derived
+		case x < 80:
+			lines = append(lines, fmt.Sprintf("fclear %d %d", row, edge(r, runs)%sw))
+			later = later || derived
+		case x < 86 && rows > 1:
+			lines = append(lines, fmt.Sprintf("r%s %d %d", binNames[r.Intn(4)], r.Intn(rows), r.Intn(rows)))
+			rows++
+		case x < 93:
+			lines = append(lines, "fsnap")
+			later = later || derived
+		default:
+			e := edge(r, runs)
+			lines = append(lines, fmt.Sprintf("fimport %d %d-%d", r.Pick(0, 1), e, e+r.Pick(0, 1, 3)))
+			later = later || derived
+		}
+	}
+	lines = append(lines, fmt.Sprintf("frow %d", row))
+	return vh.Case{Lines: lines, Nontrivial: derived && later}
+}
+
 // genImportCase: rows are handed out, then importRoaring (set and clear) hits their containers with
 // array / run / bitmap payload containers against array / run / bitmap stored containers (the stored
 // encodings come from earlier imports and from snapshots), then everything is re-read.
@@ -329,14 +467,18 @@ func (p *prop) Gen(r *vh.Rng, tier string, n int) []vh.Case {
 	for k := 0; k < n; k++ {
 		cr := r.Fork()
 		switch x := cr.Intn(100); {
-		case x < 30:
+		case x < 22:
 			cases = append(cases, genBitmapCase(cr))
-		case x < 65:
+		case x < 50:
 			cases = append(cases, genRowCase(cr))
-		case x < 82:
+		case x < 62:
 			cases = append(cases, genSpreadRowCase(cr))
-		default:
+		case x < 74:
 			cases = append(cases, genImportCase(cr))
+		case x < 88:
+			cases = append(cases, genRunCase(cr))
+		default:
+			cases = append(cases, genRunRowCase(cr))
 		}
 	}
 	return cases
@@ -690,6 +832,12 @@ func (c *child) exec(ws []string) string {
 		} else {
 			_, _ = b.Remove(uint64(atoi(ws[2])))
 		}
+	case "boptimize":
+		b := c.bm(ws[1])
+		if b == nil {
+			return badRef
+		}
+		b.Optimize()
 	case "bclone", "bfreeze", "bmap", "bremap", "bunmap":
 		b := c.bm(ws[1])
 		if b == nil {
@@ -926,6 +1074,18 @@ func (c *child) iso() bool {
 		add(storage)
 	}
 	byObj := map[uintptr]ref{}
+	// stores are never shared: two different container objects never point at the same data (array
+	// values, bitmap words or run intervals; the inline stash lives inside the object)
+	byData := map[uintptr]uintptr{}
+	for _, r := range refs {
+		if r.c.N == 0 || r.c.Data == 0 || r.c.Bytes == 0 {
+			continue
+		}
+		if o, dup := byData[r.c.Data]; dup && o != r.c.Obj {
+			bad("data shared by two container objects", r)
+		}
+		byData[r.c.Data] = r.c.Obj
+	}
 	for _, r := range refs {
 		if prev, dup := byObj[r.c.Obj]; dup {
 			if !(r.c.Frozen && prev.c.Frozen) {
